@@ -10,6 +10,9 @@ use crate::io::smart_ptr::SerializableType;
 use std::collections::{HashMap, HashSet, BTreeMap, BTreeSet};
 use std::hash::Hash;
 
+/// Upper bound for capacity reserved on the strength of an element count read from the input
+const MAX_PREALLOC_ELEMENTS: usize = 4096;
+
 /// Trait for complex type serialization with metadata
 pub trait ComplexSerialize: Sized {
     /// Get the type identifier for versioning
@@ -213,7 +216,8 @@ impl<K: SerializableType + Hash + Eq, V: SerializableType> ComplexSerialize for 
     
     fn deserialize_with_version<I: DataInput>(input: &mut I, _version: u32) -> Result<Self> {
         let len = input.read_u32()? as usize;
-        let mut map = HashMap::with_capacity(len);
+        // `len` comes from the input: cap the reservation, the loop fails on missing elements
+        let mut map = HashMap::with_capacity(len.min(MAX_PREALLOC_ELEMENTS));
         
         for _ in 0..len {
             let key = K::deserialize(input)?;
@@ -240,7 +244,8 @@ impl<T: SerializableType + Hash + Eq> ComplexSerialize for HashSet<T> {
     
     fn deserialize_with_version<I: DataInput>(input: &mut I, _version: u32) -> Result<Self> {
         let len = input.read_u32()? as usize;
-        let mut set = HashSet::with_capacity(len);
+        // `len` comes from the input: cap the reservation, the loop fails on missing elements
+        let mut set = HashSet::with_capacity(len.min(MAX_PREALLOC_ELEMENTS));
         
         for _ in 0..len {
             set.insert(T::deserialize(input)?);
@@ -497,7 +502,8 @@ impl ComplexTypeSerializer {
         let mut input = crate::io::SliceDataInput::new(bytes);
         
         let count = input.read_u32()? as usize;
-        let mut values = Vec::with_capacity(count);
+        // `count` comes from the input: cap the reservation, the loop fails on missing elements
+        let mut values = Vec::with_capacity(count.min(MAX_PREALLOC_ELEMENTS));
         
         let version = if self.config.include_metadata && count > 0 {
             // Read type metadata once for the entire batch
